@@ -74,6 +74,7 @@ Conforms(e) ==
     [] e.op = "vrf.Verify" -> VerifyEvent(e)
     [] e.op = "vrf.Decode" -> DecodeEvent(e)
     [] e.op = "vrf.par" -> e.out.panic = ""          \* concurrent calls answer as they do alone (compared in the driver)
+    [] e.op = "vrf.Sweep" -> e.out.panic = ""         \* every alpha length 0..300: Prove / Verify agree with the RFC 9381 transcription (compared in the driver)
     [] OTHER -> FALSE
 
 Init == l = 1 /\ bad = <<>>
